@@ -106,3 +106,11 @@ package limit
 //@   flag nolock
 //@   ensures lim.redisAlive == 0 || old(lim.monitorStarted)
 //@   modifies lim.monitorStarted, lim.redisAlive
+
+// the local fallback bucket has the same parameters as the shared one: refill rate `rate` per second, capacity `burst`
+//@ func NewTokenLimiter
+//@   property C03
+//@   requires rate > 0
+//@   call Every#0: assert arg_interval == time.Second / time.Duration(rate)
+//@   call NewLimiter#0: assert arg_b == burst
+//@   ensures result.rate == rate && result.burst == burst && result.store == store && result.redisAlive == 1
